@@ -1,4 +1,5 @@
 import Modbus.Lemmas.Crc
+import Modbus.Lemmas.CrcRocksoft
 /-
 C06 — the RTU checksum is CRC-16/MODBUS for every message.
 
@@ -63,6 +64,17 @@ theorem crc_check_value_model :
     crc16 [0x31, 0x32, 0x33, 0x34, 0x35, 0x36, 0x37, 0x38, 0x39] = 0x374B ∧
     be16 (crc16 [0x31, 0x32, 0x33, 0x34, 0x35, 0x36, 0x37, 0x38, 0x39]) = [0x37, 0x4B] := by
   decide +kernel
+
+/-- the Rocksoft-parameter form — width 16, poly 0x8005, init 0xFFFF, refin, refout, xorout 0, on a
+    normal left-shifting register (`Rocksoft.crc`, Lemmas/CrcRocksoft.lean, a generic definition that
+    also reproduces the check values of CRC-16/IBM-3740, /ARC and /X-25) — equals the bit-serial
+    specification for every message; with `crc_eq_spec`, the Rust loop computes exactly the catalogue's
+    CRC-16/MODBUS -/
+theorem crc_rocksoft (msg : Bytes) : Rocksoft.crc Rocksoft.modbus msg = Spec.crc16Modbus msg :=
+  Rocksoft.modbus_eq_spec msg
+
+theorem crc_eq_rocksoft (msg : Bytes) : (crcRaw 0xFFFF msg).toBitVec = Rocksoft.crc Rocksoft.modbus msg := by
+  rw [crc_rocksoft, crc_eq_spec]
 
 /-- the two vectors pinned in the crate's tests (rtu/mod.rs `test_calc_crc16`) -/
 example : crc16 [0x01, 0x03, 0x08, 0x2B, 0x00, 0x02] = 0xB663 := by decide +kernel
